@@ -21,7 +21,9 @@ static FILE* out;
 static int jmpBase = 0;
 static int relJmp() { return CppUTestVerif_JmpBufIndex() - jmpBase; }
 
-struct PhaseS { std::vector<std::pair<int,int> > sets; std::string ev; };
+struct PhaseS { std::vector<std::pair<int,int> > sets; std::vector<std::string> evs; };
+static int g_rep = 0;   // current repetition (1-based), set by the output callback
+static const std::string& evNow(const PhaseS& ph) { size_t i = g_rep < 1 ? 0 : (size_t) g_rep - 1; if (i >= ph.evs.size()) i = ph.evs.size() - 1; return ph.evs[i]; }
 struct TestS { std::string g, n; bool ign; PhaseS ph[3]; };
 struct FilterS { std::string pat; bool strict, invert; };
 struct PluginS { std::string name; bool enabled, err; };
@@ -57,16 +59,17 @@ static void runPhase(int t, int p)
     }
     const char* file = fileNames[(size_t) t - 1].c_str();
     size_t line = (size_t) (1000 * t + 10 * (p + 1));
-    if (ph.ev == "ok") {
+    const std::string& ev = evNow(ph);
+    if (ev == "ok") {
         CHECK_TRUE_LOCATION(true, "CHECK", "scripted", NULLPTR, file, line);
-    } else if (ph.ev == "failCpp") {
+    } else if (ev == "failCpp") {
         CHECK_TRUE_LOCATION(false, "CHECK", "scripted", NULLPTR, file, line);
-    } else if (ph.ev == "failC") {
+    } else if (ev == "failC") {
         CHECK_C_LOCATION(0, "scripted", NULLPTR, file, line);
     }
 #if defined(__cpp_exceptions)
-    else if (ph.ev == "throwStd") { throw std::runtime_error("scripted std exception"); }
-    else if (ph.ev == "throwOther") { throw 42; }
+    else if (ev == "throwStd") { throw std::runtime_error("scripted std exception"); }
+    else if (ev == "throwOther") { throw 42; }
 #endif
     fprintf(out, "{\"op\":\"mark\",\"t\":%d,\"ph\":\"%s\",\"w\":\"post\"}\n", t, PHN[p]);
 }
@@ -123,7 +126,7 @@ public:
     void printTestsStarted() CPPUTEST_OVERRIDE
     {
         TestOutput::printTestsStarted();
-        repNo++;
+        repNo++; g_rep = repNo;
         fprintf(out, "{\"op\":\"rep\",\"n\":%d,\"order\":[", repNo);
         bool first = true;
         for (UtestShell* t = theRegistry->getFirstTest(); t; t = t->getNext()) { fprintf(out, "%s%d", first ? "" : ",", idxOf[t]); first = false; }
@@ -226,7 +229,9 @@ static void emitProg()
             fprintf(out, "%s\"%s\":{\"sets\":[", p ? "," : "", PHN[p]);
             const PhaseS& ph = P->tests[i].ph[p];
             for (size_t k = 0; k < ph.sets.size(); k++) fprintf(out, "%s{\"loc\":%d,\"val\":%d}", k ? "," : "", ph.sets[k].first, ph.sets[k].second);
-            fprintf(out, "],\"ev\":%s}", vh_jstr(ph.ev).c_str());
+            fprintf(out, "],\"ev\":[");
+            for (size_t k = 0; k < ph.evs.size(); k++) fprintf(out, "%s%s", k ? "," : "", vh_jstr(ph.evs[k]).c_str());
+            fprintf(out, "]}");
         }
         fprintf(out, "}");
     }
@@ -287,7 +292,7 @@ static void runProgram()
     int (*savedRand)(void) = PlatformSpecificRand; void (*savedSrand)(unsigned int) = PlatformSpecificSrand;
     if (P->haveDraws) { drawPos = 0; PlatformSpecificRand = forcedRand; PlatformSpecificSrand = noSrand; }
     for (int l = 0; l <= NLOC; l++) targets[l] = NULL;
-    jmpBase = CppUTestVerif_JmpBufIndex();
+    jmpBase = CppUTestVerif_JmpBufIndex(); g_rep = 0;
     int rv;
     {
         RecRunner runner((int) av.size(), &av[0], &registry);
@@ -323,7 +328,7 @@ int main(int argc, char** argv)
         else if (f[0] == "plugin" && f.size() >= 4) { PluginS x; x.name = f[1]; x.enabled = f[2] == "1"; x.err = f[3] == "1"; P->plugins.push_back(x); }
         else if (f[0] == "test" && f.size() >= 10) {
             TestS t; t.g = f[1]; t.n = f[2]; t.ign = f[3] == "1";
-            for (int p = 0; p < 3; p++) { t.ph[p].sets = parseSets(f[4 + 2 * (size_t) p]); t.ph[p].ev = f[5 + 2 * (size_t) p]; }
+            for (int p = 0; p < 3; p++) { t.ph[p].sets = parseSets(f[4 + 2 * (size_t) p]); t.ph[p].evs = vh_split(f[5 + 2 * (size_t) p], '/'); }
             P->tests.push_back(t);
         }
         else if (f[0] == "run") runProgram();
